@@ -331,8 +331,29 @@ def r18e(ctx):
                                   f"`{norm(key, 60)}` memoises on id(obj) in a field of the builder: after the object is "
                                   f"mutated, or a new object is allocated at a recycled address, the builder returns the old "
                                   f"expansion and the tree no longer equals the object")
+    # builders are stateless across objects: conversion methods store nothing on self
+    for q in sorted(m.subclasses(bq)):
+        for name, (kind, v) in m.attrs[q].items():
+            if kind != "def" or name in ("__init__", "__init_subclass__", "__new__"):
+                continue
+            for x in walk_no_nested(v.node):
+                tgt = None
+                if isinstance(x, (ast.Attribute, ast.Subscript)) and isinstance(x.ctx, (ast.Store, ast.Del)):
+                    base = x if isinstance(x, ast.Attribute) else x.value
+                    d = dotted(base)
+                    if d and d.startswith("self."):
+                        tgt = x
+                elif isinstance(x, ast.Call) and isinstance(x.func, ast.Attribute) and self_attr(x.func.value) \
+                        and x.func.attr in ("append", "add", "update", "setdefault", "extend", "insert"):
+                    tgt = x
+                if tgt is not None and not any(isinstance(c, ast.Call) and call_name(c) == "id" for c in ast.walk(tgt)):
+                    n += 1
+                    ctx.violation("R18e", v.file, v.short, tgt, f"builder state written in {v.short}",
+                                  f"`{norm(tgt, 60)}` stores per-object information on the builder during conversion: what was "
+                                  f"learnt from one object (e.g. the attribute names of the first instance of a class) is replayed "
+                                  f"for later objects, so their trees no longer equal them")
     if n == 0:
-        ctx.proved("R18e", m.files[m.classes[bq][0]], "Builder", None, "no id()-keyed memo", "no builder field is indexed by id(obj)")
+        ctx.proved("R18e", m.files[m.classes[bq][0]], "Builder", None, "no id()-keyed memo", "no builder field is indexed by id(obj) or written during conversion")
 
 
 def r18f(ctx):
